@@ -264,6 +264,9 @@ class Execution:
         try:
             for name, fn in ex.world.actors():
                 self.add_actor(name, fn)
+            for a in self.actors:  # actors a world releases itself through an extra option (e.g. "starts during the stall")
+                if a.name in getattr(ex.world, "initially_frozen", ()):
+                    a.frozen = True
             while True:
                 ready = [a for a in self.actors if self._enabled(a)]
                 extra = ex.world.extra_options(self) if ex.has_extra else []
